@@ -1098,6 +1098,11 @@ class Executor:
         kwargs = {}
         for k in node.keywords:
             if k.arg is None:
+                kv = self.ev(k.value, st)
+                if getattr(kv, "is_own_kwargs", False):
+                    # forwarding this function's own **kwargs: extra keyword arguments nobody names (the contracts of the
+                    # callees used here accept and ignore unknown keywords); they carry no information
+                    continue
                 raise Unsupported("**kwargs in call", node)
             kwargs[k.arg] = self.ev_arg(k.value, st)
         return self.call(st, fn, args, kwargs, node)
